@@ -2,8 +2,11 @@
 # Build the framework from files on disk only (offline).
 set -e
 cd "$(dirname "$0")/.."
+mkdir -p .cache
 export GOFLAGS=-mod=mod GOPROXY=off GOSUMDB=off GOTOOLCHAIN=local
-(cd lean && lake build SaoVerif saomodel)
 cp /repo/go.sum harness/go.sum
+# Tie 1: the facts regenerated from /repo's source are part of the Lean project
+(cd harness && go build -o ../.cache/extract.setup ./cmd/extract && ../.cache/extract.setup -repo /repo -out ../lean/SaoVerif/Generated)
+(cd lean && lake build SaoVerif saomodel)
 (cd harness && go build -tags verif -o /dev/null ./cmd/drive)
 echo setup-ok
